@@ -319,6 +319,9 @@ func checkC17(w *World, r *Report) {
 	rulePopMode(w, r, "C17", fi)
 	ruleStateAgrees(w, r, "C17")
 	ruleFinalRender(w, r, "C17")
+	// the successor is pushed with sync=true: the heap loop must honour that request, or the successor's
+	// width-synchronised decorators wait for a matrix that never lists them and it is never displayed
+	ruleSyncArm(w, r, "C17")
 	ruleOptionTable(w, r, "C17", map[string][3]string{"BarQueueAfter": {tBState, "waitBar", "param"}})
 }
 
